@@ -48,6 +48,9 @@ NumPy semantics used here (closed proxy `DiagNumpy`; nothing in symtrace.py is c
     `[:, -1]`, `[-1]` through ndarray indexing of object arrays.
   * argument mutation: the adapter checks that the array handed to the function holds the same
     objects afterwards (fail closed otherwise).
+  * purity: the set of names (globals, builtins, attributes) each function body refers to must be a subset
+    of the set it uses today (`want_names`); signatures and default arguments are checked with `inspect`.
+    A memo table, `id(..)`, `weakref`, a logger call, another numpy routine: fail closed.
 """
 from __future__ import annotations
 
@@ -455,6 +458,31 @@ def translations():
         if [p.name for p in ps] != names or [p.default for p in ps if p.default is not p.empty] != defaults:
             raise TranslatorUnsupported(
                 f"{f.__name__}: signature {[(p.name, p.default) for p in ps]} differs from {names} / defaults {defaults}")
+
+    # every global / builtin / attribute NAME the function bodies refer to; a new name (a module-level
+    # table, `id`, `weakref`, a logger, another numpy routine ...) is outside what the generated PURE
+    # definitions can express -> fail closed before tracing
+    def want_names(f, allowed):
+        def names(code):
+            out = set(code.co_names)
+            for c in code.co_consts:
+                if hasattr(c, "co_names"):
+                    out |= names(c)
+            return out
+        extra = sorted(names(f.__code__) - set(allowed))
+        if extra or f.__code__.co_freevars:
+            raise TranslatorUnsupported(
+                f"{f.__name__} refers to names outside the modelled set: {extra} {list(f.__code__.co_freevars)} "
+                "(module-level state, object identity, other routines): the generated definitions are pure "
+                "functions of the argument values and cannot express them")
+
+    want_names(real_scatter, ["np", "sum", "zeros"])
+    want_names(real_pgr, ["ValueError", "_scatter_matrix", "_stats", "eigvalsh", "la", "np", "sum"])
+    want_names(real_coaxial, ["symmetry_pgr"])
+    want_names(real_bingham, ["ValueError", "_scatter_matrix", "_stats", "asarray", "eigh", "la", "norm", "np"])
+    want_names(real_fse, ["eigh", "la", "np", "sqrt", "transpose"])
+    want_names(real_angle, ["arccos", "asarray", "clip", "dot", "linalg", "norm", "np", "rad2deg"])
+    want_names(real_fse_angle, ["arctan", "np", "rad2deg", "sqrt"])
 
     want_sig(real_scatter, ["orientations", "row"], [])
     want_sig(real_pgr, ["orientations", "axis"], ["a"])
